@@ -50,6 +50,7 @@ def describe():
 # workload generation
 # ---------------------------------------------------------------------------------------------
 DENY = ("drop_invalid_rows", "name_collision", "subsample")
+DENY_SHARED = ("name_collision", "subsample")     # shared pandas workloads may drop invalid rows (solo and scheduled runs leak alike)
 
 
 SHARED_FORCE = ("coerce", "multiindex", "index", "regex", "schema_dtype")   # everything validated through a temporary override
@@ -76,6 +77,8 @@ def gen_workload(rng, idx):
         spec = subjects[si]
         fr = g.frame_for(spec, conform=0.6)
         mode = {"lazy": rng.random() < 0.5, "inplace": False}
+        if "drop_invalid_rows" in world.spec_features(spec):
+            mode["lazy"] = mode["lazy"] or rng.random() < 0.8     # drop_invalid_rows is only defined for lazy validation
         if backend == "polars":
             mode["pl_lazy"] = (rng.random() < 0.5) if pl_lazy is None else pl_lazy
         calls.append({"subject": si, "frame": fr, "mode": mode, "plan": {}})
@@ -83,7 +86,8 @@ def gen_workload(rng, idx):
     if cfg in ("shared-pandas", "shared-polars"):
         backend = "pandas" if cfg == "shared-pandas" else "polars"
         g, spec = _spec(rng, backend, kind=rng.choice(["dfs", "dfs", "dfs", "series", "column"] if backend == "pandas" else ["dfs", "dfs", "column"]),
-                        force=SHARED_FORCE)
+                        force=SHARED_FORCE + (("drop_invalid_rows",) if backend == "pandas" else ()),
+                        deny=DENY_SHARED if backend == "pandas" else DENY)
         subjects.append(spec)
         for _ in range(n):
             add_call(g, 0, backend, pl_lazy=(False if backend == "polars" else None))
